@@ -215,6 +215,20 @@ func Parallel() {
 // Blocked reports (after Parallel) whether the named thread is blocked forever.
 func Blocked(name string) bool { return blockedNative[name] }
 
+// GoCount / RunGo (harnesses with `go=defer`): goroutines started by the code under test are
+// recorded instead of run; RunGo(i) runs the i-th one to completion (or until it blocks).
+func GoCount() int { return 0 }
+
+// RunGo runs a recorded goroutine.
+func RunGo(i int) {}
+
+// Recorded returns how often the recording stub of a third-party metric object was called
+// (key "<lib>:<kind>:<name>.<method>"); RecordedLast its last first argument as an integer.
+func Recorded(key string) int { return 0 }
+
+// RecordedLast: see Recorded.
+func RecordedLast(key string) int64 { return -1 }
+
 // Symbolic is true under the symbolic executor and false in native replay.
 func Symbolic() bool { return false }
 
